@@ -604,9 +604,21 @@ func TestG6RoundTrip(t *testing.T) {
 
 // ---- totality ------------------------------------------------------------------
 
+// g6BytesCase is the internal form of the two byte-level sub-checks g6-total
+// (graph6) and d6-total (digraph6); their case type is vk.BytesCase.
 type g6BytesCase struct {
 	Directed bool
 	Data     []byte
+}
+
+func checkG6TotalBytes(c vk.BytesCase) *vk.Failure {
+	vk.Sample("g6-total", c)
+	return checkG6Bytes(g6BytesCase{Directed: false, Data: c.Data})
+}
+
+func checkD6TotalBytes(c vk.BytesCase) *vk.Failure {
+	vk.Sample("d6-total", c)
+	return checkG6Bytes(g6BytesCase{Directed: true, Data: c.Data})
 }
 
 func checkG6Bytes(c g6BytesCase) *vk.Failure {
@@ -615,7 +627,10 @@ func checkG6Bytes(c g6BytesCase) *vk.Failure {
 	if c.Directed {
 		codec = "digraph6"
 	}
-	vk.Sample("g6-total", c)
+	if len(s) > maxBytesCase {
+		vk.Class("total " + codec + " skipped: input longer than 4096 bytes")
+		return nil
+	}
 	n, body, why := refParse(s, c.Directed)
 	var valid bool
 	if r := vk.Call(func() { valid = g6IsValid(s, c.Directed) }); r.Outcome != vk.Returned {
@@ -627,7 +642,7 @@ func checkG6Bytes(c g6BytesCase) *vk.Failure {
 		vk.Class("total " + codec + " rejected " + why)
 	}
 	if why == "bad-length" || why == "" {
-		vk.NonTrivial("g6-total", c.Directed, string(s))
+		vk.NonTrivial(codec+"-total", string(s))
 	}
 	if valid != (why == "") {
 		key := "isvalid-mismatch"
@@ -738,8 +753,12 @@ func checkG6Bytes(c g6BytesCase) *vk.Failure {
 // forms, and orders whose square wraps in 64-bit arithmetic.
 var g6HotOrders = []int64{0, 1, 2, 62, 63, 64, 4095, 4096, 258047, 258048, 1<<31 - 1, 1 << 31, 1<<32 - 1, 1 << 32, 1<<32 + 1, 3 << 32, 1 << 33, 1 << 34, 1 << 35, 15 << 32, 1<<36 - 1, 3037000500, 4294967297, 6074001000}
 
-func drawG6Bytes(t *rapid.T) g6BytesCase {
-	c := g6BytesCase{Directed: rapid.Bool().Draw(t, "directed")}
+func drawG6Bytes(directed bool) func(t *rapid.T) vk.BytesCase {
+	return func(t *rapid.T) vk.BytesCase { return vk.BytesCase{Data: drawG6Bytes1(t, directed).Data} }
+}
+
+func drawG6Bytes1(t *rapid.T, directed bool) g6BytesCase {
+	c := g6BytesCase{Directed: directed}
 	valid := func(label string) []byte {
 		n := rapid.IntRange(0, 12).Draw(t, label+"_n")
 		if rapid.IntRange(0, 19).Draw(t, label+"_big") == 0 {
@@ -817,21 +836,20 @@ func drawG6Bytes(t *rapid.T) g6BytesCase {
 }
 
 func TestG6Totality(t *testing.T) {
-	// every string of length <= 2 over a reduced alphabet, both codecs
+	// every string of length <= 3 over a reduced alphabet, both codecs
 	alpha := []byte{0, '&', 62, 63, 64, 'A', 'B', 125, 126, 127, 255}
-	var cases []g6BytesCase
-	for _, d := range []bool{false, true} {
-		cases = append(cases, g6BytesCase{d, nil})
-		for _, a := range alpha {
-			cases = append(cases, g6BytesCase{d, []byte{a}})
-			for _, b := range alpha {
-				cases = append(cases, g6BytesCase{d, []byte{a, b}})
-				for _, c := range alpha {
-					cases = append(cases, g6BytesCase{d, []byte{a, b, c}})
-				}
+	cases := []vk.BytesCase{{}}
+	for _, a := range alpha {
+		cases = append(cases, vk.BytesCase{Data: []byte{a}})
+		for _, b := range alpha {
+			cases = append(cases, vk.BytesCase{Data: []byte{a, b}})
+			for _, c := range alpha {
+				cases = append(cases, vk.BytesCase{Data: []byte{a, b, c}})
 			}
 		}
 	}
-	vk.Enumerate(t, "g6-total", len(cases), func(i int) g6BytesCase { return cases[i] }, checkG6Bytes)
-	vk.Run(t, "g6-total", vk.Opts{Quick: 30000, Thorough: 400000, NoCrumb: true}, drawG6Bytes, checkG6Bytes)
+	vk.Enumerate(t, "g6-total", len(cases), func(i int) vk.BytesCase { return cases[i] }, checkG6TotalBytes)
+	vk.Run(t, "g6-total", vk.Opts{Quick: 15000, Thorough: 200000, NoCrumb: true}, drawG6Bytes(false), checkG6TotalBytes)
+	vk.Enumerate(t, "d6-total", len(cases), func(i int) vk.BytesCase { return cases[i] }, checkD6TotalBytes)
+	vk.Run(t, "d6-total", vk.Opts{Quick: 15000, Thorough: 200000, NoCrumb: true}, drawG6Bytes(true), checkD6TotalBytes)
 }
